@@ -167,6 +167,154 @@ theorem length_le_encode (cs : List Char) : cs.length ≤ (utf8Encode cs).length
 theorem decode_encode (cs : List Char) : utf8Decode (utf8Encode cs) = some cs :=
   decodeF_encode cs _ (length_le_encode cs)
 
+theorem toNat_ofNat_valid (n : Nat) (h : n < 0xD800 ∨ (0xDFFF < n ∧ n < 0x110000)) : (Char.ofNat n).toNat = n := by
+  simp [Char.ofNat, h, Nat.isValidChar, Char.ofNatAux, Char.toNat]
+
+theorem u8_eq (b : UInt8) (n : Nat) (h : b.toNat = n) : UInt8.ofNat n = b := by
+  rw [← h]; simp
+
+theorem u8_bound (b : UInt8) : b.toNat < 256 := by
+  have := b.toNat_lt; omega
+
+/-- the decoder accepts only shortest forms of scalar values: what it takes off the front is the encoding of the
+character it returns -/
+theorem decodeOne_inv (bs : List UInt8) (c : Char) (rest : List UInt8) (h : decodeOne bs = some (c, rest)) :
+    bs = encodeChar c ++ rest := by
+  unfold decodeOne at h
+  simp only at h
+  have c80 : (0x80 : UInt8).toNat = 128 := rfl
+  have cBF : (0xBF : UInt8).toNat = 191 := rfl
+  have cC2 : (0xC2 : UInt8).toNat = 194 := rfl
+  have cDF : (0xDF : UInt8).toNat = 223 := rfl
+  have cE0 : (0xE0 : UInt8).toNat = 224 := rfl
+  have cEF : (0xEF : UInt8).toNat = 239 := rfl
+  have cF0 : (0xF0 : UInt8).toNat = 240 := rfl
+  have cF4 : (0xF4 : UInt8).toNat = 244 := rfl
+  cases bs with
+  | nil => simp at h
+  | cons b0 r0 =>
+    simp only at h
+    have hb0 := u8_bound b0
+    by_cases h1 : b0 < 0x80
+    · simp only [h1, ↓reduceIte, Option.some.injEq, Prod.mk.injEq] at h
+      obtain ⟨hc, hr⟩ := h
+      rw [UInt8.lt_iff_toNat_lt, c80] at h1
+      have hn : c.toNat = b0.toNat := by rw [← hc]; exact toNat_ofNat_valid _ (by omega)
+      unfold encodeChar
+      simp only [hn, show b0.toNat < 128 from h1, ↓reduceIte, List.cons_append, List.nil_append, hr, u8_eq b0 _ rfl]
+    · simp only [h1, ↓reduceIte] at h
+      rw [UInt8.lt_iff_toNat_lt, c80] at h1
+      by_cases h2 : ((0xC2 : UInt8) ≤ b0 && b0 ≤ 0xDF) = true
+      · simp only [h2, ↓reduceIte] at h
+        simp only [Bool.and_eq_true, decide_eq_true_eq, UInt8.le_iff_toNat_le, cC2, cDF] at h2
+        cases r0 with
+        | nil => simp at h
+        | cons b1 r1 =>
+          simp only at h
+          have hb1 := u8_bound b1
+          split at h
+          · rename_i hcont
+            simp only [Bool.and_eq_true, decide_eq_true_eq, UInt8.le_iff_toNat_le, c80, cBF] at hcont
+            simp only [Option.some.injEq, Prod.mk.injEq] at h
+            obtain ⟨hc, hr⟩ := h
+            have hn : c.toNat = b0.toNat % 32 * 64 + b1.toNat % 64 := by rw [← hc]; exact toNat_ofNat_valid _ (by omega)
+            unfold encodeChar
+            have g1 : ¬ c.toNat < 128 := by omega
+            have g2 : c.toNat < 2048 := by omega
+            simp only [g1, g2, ↓reduceIte, List.cons_append, List.nil_append, hr]
+            rw [u8_eq b0 (192 + c.toNat / 64) (by omega), u8_eq b1 (128 + c.toNat % 64) (by omega)]
+          · simp at h
+      · simp only [h2, Bool.false_eq_true, ↓reduceIte] at h
+        by_cases h3 : ((0xE0 : UInt8) ≤ b0 && b0 ≤ 0xEF) = true
+        · simp only [h3, ↓reduceIte] at h
+          simp only [Bool.and_eq_true, decide_eq_true_eq, UInt8.le_iff_toNat_le, cE0, cEF] at h3
+          match r0, h with
+          | [], h => simp at h
+          | [_], h => simp at h
+          | b1 :: b2 :: r2, h =>
+            simp only at h
+            have hb1 := u8_bound b1
+            have hb2 := u8_bound b2
+            split at h
+            · rename_i hcont
+              simp only [Bool.and_eq_true, decide_eq_true_eq, UInt8.le_iff_toNat_le, c80, cBF, Bool.not_eq_true',
+                Bool.and_eq_false_iff, decide_eq_false_iff_not] at hcont
+              simp only [Option.some.injEq, Prod.mk.injEq] at h
+              obtain ⟨hc, hr⟩ := h
+              have hn : c.toNat = b0.toNat % 16 * 4096 + b1.toNat % 64 * 64 + b2.toNat % 64 := by
+                rw [← hc]; exact toNat_ofNat_valid _ (by omega)
+              unfold encodeChar
+              have g1 : ¬ c.toNat < 128 := by omega
+              have g2 : ¬ c.toNat < 2048 := by omega
+              have g3 : c.toNat < 65536 := by omega
+              simp only [g1, g2, g3, ↓reduceIte, List.cons_append, List.nil_append, hr]
+              rw [u8_eq b0 (224 + c.toNat / 4096) (by omega), u8_eq b1 (128 + c.toNat / 64 % 64) (by omega),
+                u8_eq b2 (128 + c.toNat % 64) (by omega)]
+            · simp at h
+        · simp only [h3, Bool.false_eq_true, ↓reduceIte] at h
+          by_cases h4 : ((0xF0 : UInt8) ≤ b0 && b0 ≤ 0xF4) = true
+          · simp only [h4, ↓reduceIte] at h
+            simp only [Bool.and_eq_true, decide_eq_true_eq, UInt8.le_iff_toNat_le, cF0, cF4] at h4
+            match r0, h with
+            | [], h => simp at h
+            | [_], h => simp at h
+            | [_, _], h => simp at h
+            | b1 :: b2 :: b3 :: r3, h =>
+              simp only at h
+              have hb1 := u8_bound b1
+              have hb2 := u8_bound b2
+              have hb3 := u8_bound b3
+              split at h
+              · rename_i hcont
+                simp only [Bool.and_eq_true, decide_eq_true_eq, UInt8.le_iff_toNat_le, c80, cBF] at hcont
+                simp only [Option.some.injEq, Prod.mk.injEq] at h
+                obtain ⟨hc, hr⟩ := h
+                have hn : c.toNat = b0.toNat % 8 * 262144 + b1.toNat % 64 * 4096 + b2.toNat % 64 * 64 + b3.toNat % 64 := by
+                  rw [← hc]; exact toNat_ofNat_valid _ (by omega)
+                unfold encodeChar
+                have g1 : ¬ c.toNat < 128 := by omega
+                have g2 : ¬ c.toNat < 2048 := by omega
+                have g3 : ¬ c.toNat < 65536 := by omega
+                simp only [g1, g2, g3, ↓reduceIte, List.cons_append, List.nil_append, hr]
+                rw [u8_eq b0 (240 + c.toNat / 262144) (by omega), u8_eq b1 (128 + c.toNat / 4096 % 64) (by omega),
+                  u8_eq b2 (128 + c.toNat / 64 % 64) (by omega), u8_eq b3 (128 + c.toNat % 64) (by omega)]
+              · simp at h
+          · simp only [h4, Bool.false_eq_true, ↓reduceIte] at h
+            simp at h
+
+theorem decodeF_inv : ∀ (f : Nat) (bs : List UInt8) (cs : List Char), utf8DecodeF f bs = some cs → bs = utf8Encode cs := by
+  intro f
+  induction f with
+  | zero =>
+    intro bs cs h
+    cases bs with
+    | nil => simp only [utf8DecodeF, Option.some.injEq] at h; subst h; rfl
+    | cons b r => simp [utf8DecodeF] at h
+  | succ f ih =>
+    intro bs cs h
+    cases bs with
+    | nil => simp only [utf8DecodeF, Option.some.injEq] at h; subst h; rfl
+    | cons b r =>
+      simp only [utf8DecodeF] at h
+      cases hd : decodeOne (b :: r) with
+      | none => rw [hd] at h; simp at h
+      | some x =>
+        obtain ⟨c, rest⟩ := x
+        rw [hd] at h
+        simp only at h
+        cases hr : utf8DecodeF f rest with
+        | none => rw [hr] at h; simp at h
+        | some cs' =>
+          rw [hr] at h
+          simp only [Option.map_some, Option.some.injEq] at h
+          subst h
+          rw [decodeOne_inv _ c rest hd, ih rest cs' hr]
+          simp [utf8Encode]
+
+/-- **decoder = inverse of the encoder**: a byte string decodes to a text exactly when it is that text's encoding -/
+theorem decode_iff (bs : List UInt8) (cs : List Char) : utf8Decode bs = some cs ↔ bs = utf8Encode cs :=
+  ⟨decodeF_inv _ bs cs, fun h => by rw [h]; exact decode_encode cs⟩
+
 /-- only the line feed character produces the byte `0A` -/
 theorem encodeChar_newline : encodeChar '\n' = [0x0A] := by decide
 
